@@ -20,4 +20,8 @@ theorem started_set_before_serve :
     Gen.startedSetBeforeServe = [("Server.ListenAndServe", 3, true), ("Server.ActivateAndServe", 2, true)] := by
   decide
 
+/-- `loopCheck` / `wCheck`: the accept loop, the packet loop and the per-connection loop all re-test
+    `srv.isStarted()` in their loop condition — a connection accepted while Shutdown ran is not read from -/
+theorem loops_check_started : Gen.loopsCheckStarted.all (·.2) = true ∧ Gen.loopsCheckStarted.length = 3 := by decide
+
 end Dns.Instance
